@@ -149,7 +149,7 @@ func TestC28(t *testing.T) {
 	r.Rule = "topology family (netsim.CombFamily: core meshes, trees, multi-homing, parallel links, peering subsets incl. parallel / leaf / " +
 		"core peering, 2 ISDs) x parameter perturbations re-beaconed through the real extender (each AS: MTU and MaxExpTime lowered; each link: " +
 		"MTU lowered; second, older beacon generation in both supply orders; newer generation expiring earlier via one AS; all segments of " +
-		"all ASes supplied; detachable EPIC extension on all / every second / each single AS and on one of two generations; thorough: also all ordered pairs of these) x all ordered AS pairs x findAllIdentical {false,true} x every returned " +
+		"all ASes supplied; detachable EPIC extension on all / every second / each single AS and on one of two generations; static-info + discovery extensions on all / every second AS, also with EPIC; thorough: also all ordered pairs of these) x all ordered AS pairs x findAllIdentical {false,true} x every returned " +
 		"path; distinct key = variant + pair + mode + info/hop fields of the path; non-trivial = all returned paths"
 	thorough := mc.Thorough()
 	maxLen := mc.Pick(5, 6)
@@ -158,6 +158,7 @@ func TestC28(t *testing.T) {
 	mtuKinds := map[string]int64{}
 	expSegs := map[string]int64{}
 	epicSide := map[string]int64{}
+	extSeen := map[string]int64{}
 	bubble(t, func(t *testing.T) {
 	topoLoop:
 		for ti, tp := range topos {
@@ -348,6 +349,24 @@ func TestC28(t *testing.T) {
 											"auth_phvf", fmt.Sprintf("%x", p.Metadata.EpicAuths.AuthPHVF), "auth_lhvf", fmt.Sprintf("%x", p.Metadata.EpicAuths.AuthLHVF), "segments", c28UsesString(c)))
 									}
 								}
+								for _, nt := range p.Metadata.Notes {
+									if nt != "" {
+										extSeen["paths_with_a_note"]++
+										break
+									}
+								}
+								for _, di := range p.Metadata.DiscoveryInformation {
+									if len(di.ControlServices) > 0 {
+										extSeen["paths_with_discovery_information"]++
+										break
+									}
+								}
+								for _, l := range p.Metadata.Latency {
+									if l >= 0 {
+										extSeen["paths_with_announced_latency"]++
+										break
+									}
+								}
 								r.Outcome("ok/" + c.Kind)
 								if nPaths%4001 == 1 {
 									r.Sample(pd("segments", c28UsesString(c), "kind", c.Kind))
@@ -376,6 +395,7 @@ func TestC28(t *testing.T) {
 	r.Extra["earliest_expiry_in"] = expSegs
 	r.Extra["max_beacon_walk_len"] = maxLen
 	r.Extra["epic_authenticators_side_comparison"] = epicSide
+	r.Extra["static_info_extension_reached_metadata"] = extSeen
 	r.Assumptions = []string{
 		"'passes no AS more than twice' is read as documented at filterLongPaths: no AS owns more than two entries of the interface list",
 		"weight = number of inter-AS links of the path (package doc: number of transited AS hops); both the Weight field and this count must be non-decreasing",
